@@ -1,6 +1,7 @@
 package props
 
 import (
+	"bufio"
 	"fmt"
 	"io"
 	"net"
@@ -94,7 +95,11 @@ func C01(r *core.Run) {
 	laneDone := make(chan struct{})
 	go func() {
 		defer close(laneDone)
+		var lw sync.WaitGroup
+		lw.Add(1)
+		go func() { defer lw.Done(); c01Dependent(r, md, serverBin, agentBin) }()
 		c01ShortTimeout(r, md, serverBin, agentBin)
+		lw.Wait()
 	}()
 	defer func() { <-laneDone }()
 
@@ -125,7 +130,13 @@ func C01(r *core.Run) {
 			// widen the window after ID generation in every other round
 			senv = []string{"VERIF_HOOK_DELAYS=server.id.new=1ms@30"}
 		}
-		t, err := startE1Env(r, md, serverBin, agentBin, fmt.Sprintf("r%d", round), senv)
+		// one round in five runs the agent with the websocket shim's response hook installed and serves HTML pages
+		shimRound := round%5 == 3
+		var aargs []string
+		if shimRound {
+			aargs = []string{"--shim-websockets=true", "--shim-path=shim"}
+		}
+		t, err := startE1Env(r, md, serverBin, agentBin, fmt.Sprintf("r%d", round), senv, aargs...)
 		if err != nil {
 			r.Broken("start: " + err.Error())
 			break
@@ -152,6 +163,9 @@ func C01(r *core.Run) {
 		for c := 0; c < K; c++ {
 			for i := 0; i < n; i++ {
 				p := plan{Tok: fmt.Sprintf("s%dr%dc%di%d", r.Seed, round, c, i), Method: "GET"}
+				if shimRound && i%2 == 0 {
+					p.Tok += "H" // an HTML page (see tokResponseFor)
+				}
 				if rng.Intn(2) == 0 {
 					p.Method = "POST"
 					p.ReqSize = reqSizes[rng.Intn(len(reqSizes))]
@@ -486,6 +500,139 @@ func c01ShortTimeout(r *core.Run, md *fakes.Metadata, serverBin, agentBin string
 	for tok, n := range seen {
 		if n > 1 {
 			r.Violate("C01:request-delivered-twice", fmt.Sprintf("short-timeout lane: backend saw token %s %d times", tok, n), nil, nil)
+		}
+	}
+	judgeProcs(r, true, t.server, t.agent)
+}
+
+// c01Dependent: requests whose responses depend on a later request.  N clients
+// send "hold" requests that the backend answers only once a "release" request
+// of the same group has reached it (long polls waiting for an event that
+// another client posts).  Every client must get its own response: a proxy or
+// agent that stops forwarding while N requests are in flight never delivers
+// the release.
+func c01Dependent(r *core.Run, md *fakes.Metadata, serverBin, agentBin string) {
+	t, err := startE1(r, md, serverBin, agentBin, "dep")
+	if err != nil {
+		r.Broken("dependent-requests lane start: " + err.Error())
+		return
+	}
+	defer t.close()
+	var mu sync.Mutex
+	released := map[string]chan struct{}{}
+	holding := map[string]int{}
+	gate := func(g string) chan struct{} {
+		mu.Lock()
+		defer mu.Unlock()
+		if released[g] == nil {
+			released[g] = make(chan struct{})
+		}
+		return released[g]
+	}
+	t.backend.Override = func(req *rawhttp.Message, conn net.Conn, br *bufio.Reader) (bool, bool) {
+		parts := strings.Split(strings.Trim(req.Target, "/"), "/")
+		if len(parts) != 3 || parts[0] != "dep" {
+			return false, false
+		}
+		g, tok := parts[1], parts[2]
+		ch := gate(g)
+		if strings.HasPrefix(tok, "release") {
+			mu.Lock()
+			select {
+			case <-ch:
+			default:
+				close(ch)
+			}
+			mu.Unlock()
+		} else {
+			mu.Lock()
+			holding[g]++
+			mu.Unlock()
+			select {
+			case <-ch:
+			case <-time.After(40 * time.Second):
+			}
+		}
+		body := "dep-" + tok
+		var w rawhttp.Builder
+		w.Line("HTTP/1.1 200 OK").Field("X-Tok", tok).Field("Content-Length", fmt.Sprint(len(body))).End()
+		w.WriteString(body)
+		_, err := conn.Write(w.Bytes())
+		return true, err == nil
+	}
+	groups := []int{130}
+	if !r.Quick() {
+		groups = []int{130, 260, 520}
+	}
+	for gi, n := range groups {
+		g := fmt.Sprintf("s%dg%d", r.Seed, gi)
+		type res struct {
+			tok string
+			ms  int64
+			err string
+		}
+		var rs []res
+		var rmu sync.Mutex
+		var wg sync.WaitGroup
+		do := func(tok string) {
+			defer wg.Done()
+			cl := rawhttp.NewClient(t.addr, 30*time.Second)
+			defer cl.Close()
+			var w rawhttp.Builder
+			w.Line("GET /dep/"+g+"/"+tok+" HTTP/1.1").Field("Host", "dep.example").Field("X-Tok", tok).End()
+			t0 := time.Now()
+			m, err := cl.Do(w.Bytes(), "GET")
+			x := res{tok: tok, ms: time.Since(t0).Milliseconds()}
+			switch {
+			case err != nil:
+				x.err = err.Error()
+			case m.Status != 200 || string(m.Body) != "dep-"+tok:
+				r.Violate("C01:client-saw-foreign-or-altered-response", fmt.Sprintf("dependent-requests lane: client %s got status %d body %q", tok, m.Status, core.Trunc(string(m.Body), 60)), nil, nil)
+			}
+			rmu.Lock()
+			rs = append(rs, x)
+			rmu.Unlock()
+		}
+		for i := 0; i < n; i++ {
+			wg.Add(1)
+			go do(fmt.Sprintf("hold%d", i))
+		}
+		// the release follows once the holders are at the backend (or after 3 s: a path that admits only some of them must still let the release through)
+		for d := time.Now().Add(3 * time.Second); time.Now().Before(d); time.Sleep(10 * time.Millisecond) {
+			mu.Lock()
+			h := holding[g]
+			mu.Unlock()
+			if h >= n {
+				break
+			}
+		}
+		mu.Lock()
+		atBackend := holding[g]
+		mu.Unlock()
+		wg.Add(1)
+		go do("release")
+		wg.Wait()
+		// load gauge: a direct request to the backend
+		dc := rawhttp.NewClient(t.backend.Srv.Addr(), 5*time.Second)
+		t1 := time.Now()
+		_, derr := dc.Do(tokRequest("GET", "depdirect", 10, 0, "probe.example", nil, nil), "GET")
+		dc.Close()
+		calm := derr == nil && time.Since(t1) < 500*time.Millisecond
+		lost := 0
+		for _, x := range rs {
+			if x.err != "" {
+				lost++
+			}
+		}
+		r.Cases(fmt.Sprintf("dependent-requests|holders=%d", n), n+1)
+		r.Add("dependent_lane_holders_at_backend_when_released", atBackend)
+		if lost > 0 {
+			if calm && t.agent.Alive() && t.server.Alive() {
+				r.Violate("C01:no-response:dependent-requests", fmt.Sprintf("%d holders waiting for an event and one client posting it: %d of %d clients got no response within 30 s (%d holders had reached the backend when the release was sent; a direct backend request took < 0.5 s)", n, lost, n+1, atBackend), nil, nil)
+			} else {
+				r.Inconclusive(fmt.Sprintf("dependent-requests lane: %d of %d clients got no response, machine calm=%v", lost, n+1, calm))
+			}
+			break
 		}
 	}
 	judgeProcs(r, true, t.server, t.agent)
